@@ -56,12 +56,18 @@ pub(super) fn fresh_id(side: u8) -> u8 { unsafe { ERR_ID += 1; if FIRST == 0 { F
 pub(super) fn de_fail() -> DeErr { let id = fresh_id(1); DeErr { synthetic: false, id } }
 pub(super) fn ser_fail() -> SerErr { let id = fresh_id(2); SerErr { synthetic: false, id } }
 
+// harnesses that only care about fidelity switch deserializer failures off (a failing deserializer makes the
+// code under test drop partially built symbolic values, which CBMC cannot afford)
+pub(super) static mut DE_MAY_FAIL: bool = true;
+pub(super) fn de_may_fail() -> bool { let on = unsafe { DE_MAY_FAIL }; on && kani::any() }
 pub(super) struct MockDe { pub depth: u8 }
 impl<'de> Deserializer<'de> for MockDe {
 	type Error = DeErr;
 	fn deserialize_any<V: DeVisitor<'de>>(self, v: V) -> Result<V::Value, DeErr> {
 		let k: u8 = kani::any();
 		kani::assume(k < 6);
+		let may_fail = unsafe { DE_MAY_FAIL };
+		kani::assume(k != 0 || may_fail);
 		match k {
 			0 => Err(de_fail()),
 			1 => { let b: bool = kani::any(); de_log(E_BOOL, b as u64); v.visit_bool(b) }
@@ -89,7 +95,7 @@ pub(super) struct MockSeq { remaining: u8, depth: u8 }
 impl<'de> SeqAccess<'de> for MockSeq {
 	type Error = DeErr;
 	fn next_element_seed<T: DeserializeSeed<'de>>(&mut self, seed: T) -> Result<Option<T::Value>, DeErr> {
-		if kani::any() { return Err(de_fail()); }
+		if de_may_fail() { return Err(de_fail()); }
 		if self.remaining == 0 { de_log(E_SEQ_END, 0); return Ok(None); }
 		self.remaining -= 1;
 		de_log(E_ELEM, 0);
@@ -101,14 +107,14 @@ pub(super) struct MockMap { remaining: u8, depth: u8 }
 impl<'de> MapAccess<'de> for MockMap {
 	type Error = DeErr;
 	fn next_key_seed<K: DeserializeSeed<'de>>(&mut self, seed: K) -> Result<Option<K::Value>, DeErr> {
-		if kani::any() { return Err(de_fail()); }
+		if de_may_fail() { return Err(de_fail()); }
 		if self.remaining == 0 { de_log(E_MAP_END, 0); return Ok(None); }
 		self.remaining -= 1;
 		de_log(E_KEY, 0);
 		seed.deserialize(MockDe { depth: self.depth }).map(Some)
 	}
 	fn next_value_seed<V: DeserializeSeed<'de>>(&mut self, seed: V) -> Result<V::Value, DeErr> {
-		if kani::any() { return Err(de_fail()); }
+		if de_may_fail() { return Err(de_fail()); }
 		de_log(E_VAL, 0);
 		seed.deserialize(MockDe { depth: self.depth })
 	}
